@@ -284,7 +284,18 @@ where
                     | AccountEvent::UpdateFolder(id, buf)
                     | AccountEvent::CompactFolder(id, buf)
                     | AccountEvent::ChangeFolderPassword(id, buf) => {
-                        self.import_folder(id, buf).await?;
+                        // A rewind and patch of the account log to
+                        // resolve a conflict replays the events that
+                        // created existing folders; importing the
+                        // initial state again would erase the folder
+                        // events that have already been accepted.
+                        let replayed_create = matches!(
+                            &event,
+                            AccountEvent::CreateFolder(_, _)
+                        ) && self.folders().contains_key(id);
+                        if !replayed_create {
+                            self.import_folder(id, buf).await?;
+                        }
                     }
                     AccountEvent::RenameFolder(id, name) => {
                         let id = self
